@@ -26,6 +26,8 @@ import (
 
 	erpc "github.com/henrylee2cn/erpc/v6"
 	"github.com/henrylee2cn/erpc/v6/socket"
+	"github.com/henrylee2cn/erpc/v6/xfer/gzip"
+	"github.com/henrylee2cn/erpc/v6/xfer/md5"
 	ws "github.com/henrylee2cn/erpc/v6/mixer/websocket"
 	"github.com/henrylee2cn/erpc/v6/mixer/websocket/jsonSubProto"
 	"github.com/henrylee2cn/erpc/v6/mixer/websocket/pbSubProto"
@@ -58,53 +60,122 @@ type caseCfg struct {
 	pval     string
 	mismatch bool // the caller's result type cannot hold the handler's result
 	invoked  int
+	pipe     byte // transfer filter of the call (inherited by the reply): 0 | 'g' gzip | 'm' md5
+	// every stage is a chain of 3 plugins: the one at pos[stage] returns the stage's verdict,
+	// those before it pass (nil or a non-nil OK status), decoy[stage] is what the LAST plugin
+	// would answer if it were (wrongly) still asked
+	pos    map[string]int
+	decoy  map[string]statusSpec
+	called map[string][]int
+}
+
+func (c *caseCfg) position(stage string) int {
+	if c.pos == nil {
+		return 0
+	}
+	return c.pos[stage]
+}
+
+// chainAct: plugin number idx of the stage's chain is being called
+func chainAct(verdicts map[string]statusSpec, stage string, idx int) *erpc.Status {
+	c := cur
+	if c == nil {
+		return nil
+	}
+	if c.called == nil {
+		c.called = map[string][]int{}
+	}
+	c.called[stage] = append(c.called[stage], idx)
+	pass := func() *erpc.Status {
+		if idx%2 == 1 {
+			return erpc.NewStatus(0, "pass", "")
+		}
+		return nil
+	}
+	v, ok := verdicts[stage]
+	if !ok {
+		return pass()
+	}
+	p := c.position(stage)
+	switch {
+	case idx < p:
+		return pass()
+	case idx == p:
+		return erpc.NewStatus(v.code, v.msg, v.cause)
+	}
+	if d, ok := c.decoy[stage]; ok && idx == 2 {
+		return erpc.NewStatus(d.code, d.msg, d.cause)
+	}
+	return nil
+}
+
+// chainVal: the stage's chain as the model sees it
+func (c *caseCfg) chainVal(verdicts map[string]statusSpec, stage string) string {
+	v, ok := verdicts[stage]
+	items := []string{VS("chain")}
+	for idx := 0; idx < 3; idx++ {
+		pass := VS("nil")
+		if idx%2 == 1 {
+			pass = verdictVal(statusSpec{0, "pass", ""})
+		}
+		switch {
+		case !ok || idx < c.position(stage):
+			items = append(items, pass)
+		case idx == c.position(stage):
+			items = append(items, verdictVal(v))
+		default:
+			if d, ok := c.decoy[stage]; ok && idx == 2 {
+				items = append(items, verdictVal(d))
+			} else {
+				items = append(items, VS("nil"))
+			}
+		}
+	}
+	return VL(items...)
 }
 
 var cur *caseCfg
 
-// per-call watchdog: a call that has not completed by then is recorded as "caller-hangs";
+// per-call watchdog: a call that has not completed by then is recorded as "caller-never-completes";
 // after maxHangs of them the sub-process stops generating (fail fast, stats still written)
 const (
-	callWatchdog = 3 * time.Second
-	maxHangs     = 3
+	callWatchdog = 15 * time.Second // generous: the machine may be heavily loaded
+	maxHangs     = 2
 )
 
 var hangs int
 
 // ---------------------------------------------------------------- plugins
 
-type splugin struct{}
+type splugin struct{ idx int }
 
-func (splugin) Name() string { return "server-verdict" }
-func sveto(stage string) *erpc.Status {
+func (p splugin) Name() string { return "server-verdict-" + strconv.Itoa(p.idx) }
+func (p splugin) PostReadCallHeader(erpc.ReadCtx) *erpc.Status {
+	return chainAct(curS(), "prch", p.idx)
+}
+func (p splugin) PreReadCallBody(erpc.ReadCtx) *erpc.Status  { return chainAct(curS(), "prcb", p.idx) }
+func (p splugin) PostReadCallBody(erpc.ReadCtx) *erpc.Status { return chainAct(curS(), "porcb", p.idx) }
+
+type cplugin struct{ idx int }
+
+func (p cplugin) Name() string                                { return "client-verdict-" + strconv.Itoa(p.idx) }
+func (p cplugin) PreWriteCall(erpc.WriteCtx) *erpc.Status       { return chainAct(curC(), "pwc", p.idx) }
+func (p cplugin) PostReadReplyHeader(erpc.ReadCtx) *erpc.Status { return chainAct(curC(), "porh", p.idx) }
+func (p cplugin) PreReadReplyBody(erpc.ReadCtx) *erpc.Status    { return chainAct(curC(), "prrb", p.idx) }
+func (p cplugin) PostReadReplyBody(erpc.ReadCtx) *erpc.Status   { return chainAct(curC(), "porrb", p.idx) }
+
+func curS() map[string]statusSpec {
 	if cur == nil {
 		return nil
 	}
-	if v, ok := cur.sVerdict[stage]; ok {
-		return erpc.NewStatus(v.code, v.msg, v.cause)
-	}
-	return nil
+	return cur.sVerdict
 }
-func (splugin) PostReadCallHeader(erpc.ReadCtx) *erpc.Status { return sveto("prch") }
-func (splugin) PreReadCallBody(erpc.ReadCtx) *erpc.Status    { return sveto("prcb") }
-func (splugin) PostReadCallBody(erpc.ReadCtx) *erpc.Status   { return sveto("porcb") }
-
-type cplugin struct{}
-
-func (cplugin) Name() string { return "client-verdict" }
-func cveto(stage string) *erpc.Status {
+func curC() map[string]statusSpec {
 	if cur == nil {
 		return nil
 	}
-	if v, ok := cur.cVerdict[stage]; ok {
-		return erpc.NewStatus(v.code, v.msg, v.cause)
-	}
-	return nil
+	return cur.cVerdict
 }
-func (cplugin) PreWriteCall(erpc.WriteCtx) *erpc.Status       { return cveto("pwc") }
-func (cplugin) PostReadReplyHeader(erpc.ReadCtx) *erpc.Status { return cveto("porh") }
-func (cplugin) PreReadReplyBody(erpc.ReadCtx) *erpc.Status    { return cveto("prrb") }
-func (cplugin) PostReadReplyBody(erpc.ReadCtx) *erpc.Status   { return cveto("porrb") }
 
 // ---------------------------------------------------------------- handlers
 
@@ -222,7 +293,7 @@ func newLink(proto string) *link {
 	default:
 		Must(errors.New("unknown protocol " + proto))
 	}
-	l.srv = erpc.NewPeer(erpc.PeerConfig{}, splugin{})
+	l.srv = erpc.NewPeer(erpc.PeerConfig{}, splugin{0}, splugin{1}, splugin{2})
 	l.pathH = l.srv.RouteCallFunc(H)
 	l.pathHS = l.srv.RouteCallFunc(HS)
 	l.pathHT = l.srv.RouteCallFunc(HT)
@@ -232,9 +303,9 @@ func newLink(proto string) *link {
 		Must(err)
 		l.wsAddr = lis.Addr().String()
 		go http.Serve(lis, ws.NewServeHandler(l.srv, nil, l.pf))
-		l.wsCli = ws.NewClient("/", erpc.PeerConfig{}, cplugin{})
+		l.wsCli = ws.NewClient("/", erpc.PeerConfig{}, cplugin{0}, cplugin{1}, cplugin{2})
 	} else {
-		l.cli = erpc.NewPeer(erpc.PeerConfig{}, cplugin{})
+		l.cli = erpc.NewPeer(erpc.PeerConfig{}, cplugin{0}, cplugin{1}, cplugin{2})
 	}
 	return l
 }
@@ -381,7 +452,11 @@ func (l *link) run(c *caseCfg) observation {
 		}
 	}
 	doneCh := make(chan erpc.CallCmd, 1)
-	go func() { doneCh <- sess.Call(sm, args, result, erpc.WithBodyCodec(c.codec)) }()
+	settings := []erpc.MessageSetting{erpc.WithBodyCodec(c.codec)}
+	if c.pipe != 0 {
+		settings = append(settings, erpc.WithXferPipe(c.pipe))
+	}
+	go func() { doneCh <- sess.Call(sm, args, result, settings...) }()
 	var o observation
 	select {
 	case cmd := <-doneCh:
@@ -479,8 +554,12 @@ func (c *caseCfg) expect() expectation {
 }
 
 func (c *caseCfg) human() string {
-	return fmt.Sprintf("proto=%s codec=%c failure=%s server=%v client=%v handler=%s hstat=%v panic=%q mismatch=%v",
-		c.proto, c.codec, c.failure, c.sVerdict, c.cVerdict, c.handler, c.hstat, c.pval, c.mismatch)
+	pipe := "none"
+	if c.pipe != 0 {
+		pipe = string(c.pipe)
+	}
+	return fmt.Sprintf("proto=%s codec=%c pipe=%s failure=%s server=%v client=%v pos=%v decoy=%v handler=%s hstat=%v panic=%q mismatch=%v",
+		c.proto, c.codec, pipe, c.failure, c.sVerdict, c.cVerdict, c.pos, c.decoy, c.handler, c.hstat, c.pval, c.mismatch)
 }
 
 func oracle(st *Stats, idx int, c *caseCfg, o observation) {
@@ -488,11 +567,23 @@ func oracle(st *Stats, idx int, c *caseCfg, o observation) {
 	h := c.human()
 	got := fmt.Sprintf("(%d,%q,%q) result=%s", o.code, o.msg, o.cause, o.resultRepr)
 	if o.hung {
-		st.Fail(idx, "caller-hangs", "the call never completed (watchdog 3 s)", h)
+		st.Fail(idx, "caller-never-completes", "the call never completed (watchdog 15 s)", h)
 		return
 	}
 	if c.invoked > 1 {
 		st.Fail(idx, "handled-twice", "handler ran more than once", h)
+	}
+	for _, vm := range []map[string]statusSpec{c.sVerdict, c.cVerdict} {
+		for stage, v := range vm {
+			if v.code == 0 {
+				continue
+			}
+			for _, k := range c.called[stage] {
+				if k > c.position(stage) {
+					st.Fail(idx, "plugin-chain-continued", fmt.Sprintf("stage %s: plugin %d was still called after plugin %d refused", stage, k, c.position(stage)), h)
+				}
+			}
+		}
 	}
 	_, _, serverErr := c.serverStatus()
 	if e.ok {
@@ -543,9 +634,7 @@ func (c *caseCfg) inputs() string {
 	// server frame in the C03 syntax
 	var vs []string
 	for _, stg := range []string{"prch", "prcb", "porcb"} {
-		if v, ok := c.sVerdict[stg]; ok {
-			vs = append(vs, VL(VS(stg), verdictVal(v)))
-		}
+		vs = append(vs, VL(VS(stg), c.chainVal(c.sVerdict, stg)))
 	}
 	route, read := "known", VS("bodyok")
 	if c.failure == "f404" {
@@ -567,16 +656,8 @@ func (c *caseCfg) inputs() string {
 	}
 	frame := VL(VZ(1), VB([]byte{1}), VBool(false), VS(route), read, VL(vs...), h,
 		VS(w), VS(w), VS(w), VBool(false), VBool(false), VBool(true), VBool(true))
-	cv := func(k string) string {
-		if v, ok := c.cVerdict[k]; ok {
-			return verdictVal(v)
-		}
-		return VS("nil")
-	}
-	pw := VS("none")
-	if v, ok := c.cVerdict["pwc"]; ok {
-		pw = VL(VS("some"), statVal(v))
-	}
+	cv := func(k string) string { return c.chainVal(c.cVerdict, k) }
+	pw := cv("pwc")
 	dec := VS("ok")
 	if c.mismatch {
 		dec = VL(VS("err"), VBool(true))
@@ -730,6 +811,23 @@ func genCase(cfg *RunCfg, proto string) *caseCfg {
 		stg := []string{"pwc", "porh", "prrb", "porrb"}[r.Intn(4)]
 		c.cVerdict[stg] = genStatus(cfg, true, "cp-"+stg, true)
 	}
+	c.pos, c.decoy = map[string]int{}, map[string]statusSpec{}
+	for _, vm := range []map[string]statusSpec{c.sVerdict, c.cVerdict} {
+		for stg, v := range vm {
+			c.pos[stg] = r.Intn(3)
+			if v.code != 0 && c.pos[stg] < 2 && r.Intn(2) == 0 {
+				d := genStatus(cfg, true, "decoy-"+stg, true)
+				c.decoy[stg] = d
+			}
+		}
+	}
+	switch proto {
+	case "thrift-struct":
+	case "http":
+		c.pipe = []byte{0, 0, 'g'}[r.Intn(3)]
+	default:
+		c.pipe = []byte{0, 0, 'g', 'm'}[r.Intn(4)]
+	}
 	if c.failure == "f102" {
 		// the reply never arrives: client-side reply hooks do not run; keep the case simple
 		c.sVerdict = map[string]statusSpec{}
@@ -878,7 +976,7 @@ func rawOracle(st *Stats, idx int, rc *rawCase, o observation) {
 	h := rc.human()
 	got := fmt.Sprintf("(%d,%q,%q) result=%+v", o.code, o.msg, o.cause, rc.result)
 	if o.hung {
-		st.Fail(idx, "caller-hangs", "the call never completed (watchdog 3 s)", h)
+		st.Fail(idx, "caller-never-completes", "the call never completed (watchdog 15 s)", h)
 		return
 	}
 	var want *statusSpec
@@ -915,6 +1013,8 @@ func rawOracle(st *Stats, idx int, rc *rawCase, o observation) {
 
 func child(cfg *RunCfg, proto string) {
 	Quiet()
+	gzip.Reg('g', "gzip", 5)
+	md5.Reg('m', "md5")
 	st := NewStats("C04", cfg)
 	w := NewCaseWriter(cfg)
 	l := newLink(proto)
@@ -970,6 +1070,16 @@ func child(cfg *RunCfg, proto string) {
 		o := l.run(c)
 		st.Count("proto:" + proto)
 		st.Count(fmt.Sprintf("codec:%c", c.codec))
+		if c.pipe != 0 {
+			st.Count(fmt.Sprintf("pipe:%c", c.pipe))
+			if _, _, e := c.serverStatus(); e {
+				st.Count("pipe:with-error-reply")
+			}
+		}
+		for stg := range c.pos {
+			st.Count(fmt.Sprintf("veto-position:%d", c.pos[stg]))
+			_ = stg
+		}
 		st.Count("handler:" + c.handler)
 		st.Count("failure:" + c.failure)
 		if c.mismatch {
@@ -1029,7 +1139,7 @@ func main() {
 		}()
 	}
 	merged := NewStats("C04", cfg)
-	merged.Rule = "cases = complete calls client peer -> server peer over each of the 8 shipped protocols (own process each) x body codec {json, plain, xml, protobuf, thrift where supported} x {handler ok / generated status (codes incl. 0, +-1, 1000, int32 extremes, random; msg and cause over all byte values incl. & = % +, non-UTF-8 where the status field is query-encoded, valid UTF-8 for httproto's JSON) / panic / nil result} x framework failure {404 unknown route, 400 undecodable arguments, 102 connection closed during the handler} x server plugin veto at {postReadCallHeader, preReadCallBody, postReadCallBody} x client plugin veto at {preWriteCall, postReadReplyHeader, preReadReplyBody, postReadReplyBody} x caller result type {matching, unable to hold the reply}; distinct by case description; non-trivial = anything but a plain successful call"
+	merged.Rule = "cases = complete calls client peer -> server peer over each of the 8 shipped protocols (own process each) x body codec {json, plain, xml, protobuf, thrift where supported} x {handler ok / generated status (codes incl. 0, +-1, 1000, int32 extremes, random; msg and cause over all byte values incl. & = % +, non-UTF-8 where the status field is query-encoded, valid UTF-8 for httproto's JSON) / panic / nil result} x framework failure {404 unknown route, 400 undecodable arguments, 102 connection closed during the handler} x transfer pipe {none, gzip, md5 where the protocol allows} x server plugin veto at {postReadCallHeader, preReadCallBody, postReadCallBody} x client plugin veto at {preWriteCall, postReadReplyHeader, preReadReplyBody, postReadReplyBody}, every stage being a chain of 3 plugins with the vetoing one first / middle / last and sometimes a different refusal behind it x caller result type {matching, unable to hold the reply}; distinct by case description; non-trivial = anything but a plain successful call"
 	var all bytes.Buffer
 	base := 0
 	for i, p := range protoNames {
